@@ -53,6 +53,16 @@ class Poly:
                 t[m] = t.get(m, Fraction(0)) + c1 * c2
         return Poly(t, self._merge_names(o))
 
+    def subst(self, mapping: Dict[str, "Poly"]) -> "Poly":
+        """Substitute polynomials for symbols (keys of `mapping` are symbol keys)."""
+        out = Poly()
+        for m, c in self.terms.items():
+            term = Poly.const(c)
+            for s in m:
+                term = term * (mapping[s] if s in mapping else Poly({(s,): Fraction(1)}, {s: self.names.get(s, s)}))
+            out = out + term
+        return out
+
     def is_const(self) -> bool:
         return all(m == () for m in self.terms)
 
